@@ -3,8 +3,8 @@ import PyrefactModel.Preserve
 # C07 — safe mode never removes or renames a module's public surface (guard logic)
 
 Every deleting / renaming rule is handed the safe-mode set as `preserve` and (by its guard) touches only names
-outside it; so a name survives if it is in the set.  Which surface names the set contains is proved here; the
-parts of the surface it misses are counterexamples (known findings).
+outside it; so a name survives if it is in the set.  Which surface names the set contains is proved here (since the
+repairs 00fac0d / 6b0879f: all of the surface the property names).
 -/
 namespace C07
 open Preserve
@@ -13,8 +13,9 @@ open Preserve
 caller's preserve names are all in the safe-mode set -/
 theorem safe_set_covers (m : ModSummary) (p : List String) :
     (∀ d ∈ m.defs, d ∈ safeSet m p) ∧ (∀ a ∈ m.assigns, a ∈ safeSet m p) ∧ (∀ x ∈ p, x ∈ safeSet m p) ∧
-    (∀ c f, (c, f) ∈ m.classMethods → (c ++ "." ++ f) ∈ safeSet m p) :=
-  ⟨safeSet_defs m p, safeSet_assigns m p, safeSet_preserve m p, safeSet_method m p⟩
+    (∀ c f, (c, f) ∈ m.classMethods → (c ++ "." ++ f) ∈ safeSet m p) ∧
+    (∀ c f, (c, f) ∈ m.classAssigns → (c ++ "." ++ f) ∈ safeSet m p) :=
+  ⟨safeSet_defs m p, safeSet_assigns m p, safeSet_preserve m p, safeSet_method m p, safeSet_classAssign m p⟩
 
 /-- a guarded rule neither deletes nor renames a name of the safe-mode set -/
 theorem safe_surface_ok_partial (m : ModSummary) (p candidates : List String) (n : String)
@@ -24,10 +25,20 @@ theorem safe_surface_ok_partial (m : ModSummary) (p candidates : List String) (n
   · exact safeSet_defs m p n h
   · exact safeSet_assigns m p n h
 
-/-- the full surface statement is false for class members: the set contains `Class.method`, a renamer that
-looks up the bare name `method` does not find it (model-level witness; replayed on the code) -/
+/-- **class members**: every method and every attribute assigned in the body of a top-level class is in the set under its
+qualified name, and a rule that renames or moves members looks up the bare name and `Class.member`: it touches none -/
+theorem safe_class_member_ok (m : ModSummary) (p candidates : List String) (c n : String)
+    (h : (c, n) ∈ m.classMethods ∨ (c, n) ∈ m.classAssigns) : n ∉ memberGuarded (safeSet m p) c candidates := by
+  apply memberGuarded_spares
+  rcases h with h | h
+  · exact Or.inr (safeSet_method m p c n h)
+  · exact Or.inr (safeSet_classAssign m p c n h)
+
+/-- the set holds class members only under their qualified name: a renamer that looks up the bare name alone does not
+find them — what `align_variable_names_with_convention` did until the repair recorded in KNOWN_FINDINGS.txt (00fac0d);
+`memberGuarded` is the guard it has now -/
 theorem class_member_bare_name_missing :
-    let m : ModSummary := ⟨["C"], [("C", "Meth")], []⟩
-    "Meth" ∉ safeSet m [] ∧ "C.Meth" ∈ safeSet m [] := by decide
+    let m : ModSummary := ⟨["C"], [("C", "Meth")], [], []⟩
+    "Meth" ∉ safeSet m [] ∧ "C.Meth" ∈ safeSet m [] ∧ "Meth" ∉ memberGuarded (safeSet m []) "C" ["Meth"] := by decide
 
 end C07
